@@ -380,6 +380,9 @@ def ellipse(cx):
     cx.need(len(full) == 1, 'gate.ellipse: expected one full-output return')
     fields = output_ctor(fn, full[0].value)
     cn = kwarg(full[0].value, 'contour', fields.index('contour'))
+    if _contour_by_summary(cx, fn, full[0], cn):
+        gateshape(cx, fn)
+        return fn
     if isinstance(cn, ast.List) and len(cn.elts) == 1 and isinstance(cn.elts[0], ast.Name):
         # the one-element list written in place
         ci = cn.elts[0].id
@@ -427,6 +430,52 @@ def ellipse(cx):
           ok, cdefs[0][0].ast if cdefs else full[0], detail='' if ok else 'contour definitions: %s' % kinds, key='contour')
     gateshape(cx, fn)
     return fn
+
+
+def _contour_by_summary(cx, fn, ret, cn):
+    """The contour handed out, read as one expression: the statements in front of the full-output return (assignments and
+    ifs of assignments) are summarised symbolically, so a conditional statement and a conditional expression, temporaries or
+    none, read alike.  True when the obligation was decided here (discharged); False leaves it to the statement-wise rule."""
+    from ..rules import summarise, _subst_env, Unsupported
+    par = fn.parent.get(id(ret))
+    block = None
+    for fld in ('body', 'orelse'):
+        b = getattr(par, fld, None)
+        if isinstance(b, list) and any(x is ret for x in b):
+            block = b
+    if block is None:
+        return False
+    i = [k for k, x in enumerate(block) if x is ret][0]
+
+    def supported(st):
+        if isinstance(st, ast.Assign) and len(st.targets) == 1 and isinstance(st.targets[0], ast.Name):
+            return True
+        return isinstance(st, ast.If) and all(supported(x) for x in st.body + st.orelse)
+    j = i
+    while j > 0 and supported(block[j - 1]):
+        j -= 1
+    if j == i:
+        return False
+    try:
+        env = summarise(block[j:i])
+    except Unsupported:
+        return False
+    expr = _subst_env(cn, env)
+    try:
+        code = fn.nf(expr, at=block[j])
+    except AnalysisError:
+        return False
+    R = 'np.array([[np.cos(theta), np.sin(theta)], [-np.sin(theta), np.cos(theta)]])'
+    ok = False
+    for tf in ('np.linspace(0, 1, K) * 2 * np.pi', 'np.linspace(0, 2 * np.pi, K)'):
+        for K in (100, 50, 200, 360, 1000):
+            t = tf.replace('K', str(K))
+            curve = 'np.dot(np.array([a * np.cos(%s), b * np.sin(%s)]).T, %s) + center' % (t, t, R)
+            if code == sym.norm('[10**(%s) if log else (%s)]' % (curve, curve)):
+                ok = True
+    if ok:
+        fn.ob('GATEPRED', 'contour traces the same ellipse (same centre, axes, rotation), back in data space iff log', True, ret, key='contour')
+    return ok
 
 
 def run(cx):
